@@ -310,6 +310,38 @@ def genForm (sub : Arg → P Unit) (nameOk : String → Bool) (head : String) (a
   else if head = "return" then genReturn sub args
   else pure ()
 
+/-! ## Generator.Generate, the `*SexpPair` case, and GenerateAssignment
+
+A pair in code position is a proper list (a call, or an infix-style assignment when `=`/`:=`
+stands at a position ≥ 1 and the head is a legal left-hand side) or a dotted pair (data).
+`GenerateAssignment` converts the pair with `ListToArray` and turns a failure into a panic
+(`panicOn(err)`: "should never happen since we prevalidate that we have a list"). -/
+
+/-- what the dispatch looks at -/
+structure PairShape where
+  proper : Bool                 -- `IsList(e)`: the chain of pairs ends in nil
+  assignPos : Option Nat        -- `IsAssignmentList(e, 0)`: position of the first `=` / `:=` element
+  lhsOk : Bool                  -- `GetLHS(e.Head)` succeeds and is not a dot-symbol
+  len : Nat                     -- number of elements (of the proper prefix)
+
+/-- `ListToArray` followed by `panicOn(err)` -/
+def listToArrayOrPanic (p : PairShape) : P Unit := if p.proper then pure () else throw .panic
+
+/-- `GenerateAssignment(expr, assignPos)` -/
+def genAssignment (sub : Arg → P Unit) (p : PairShape) (pos : Nat) : P Unit := do
+  listToArrayOrPanic p
+  failIf (p.len ≤ 1 ∨ pos = p.len - 1)
+  failIf (pos ≠ p.len - (pos + 1))            -- len(lhs) != len(rhs)
+  sub .other
+
+/-- the `*SexpPair` case of `Generate` (after fixes: the list test comes first) -/
+def genPair (sub : Arg → P Unit) (p : PairShape) : P Unit :=
+  if p.proper then
+    match p.assignPos with
+    | some pos => if pos > 0 ∧ p.lhsOk then genAssignment sub p pos else sub .other   -- GenerateCall
+    | none => sub .other                                                              -- GenerateCall
+  else pure ()                                                                        -- PushInstr{expr}: data
+
 def formNames : List String :=
   ["and", "or", "cond", "def", "set", "mdef", "fn", "defn", "defmac", "begin", "let", "letseq",
    "assert", "macexpand", "syntaxQuote", "for", "break", "continue", "newScope", "package", "return"]
